@@ -14,9 +14,9 @@ import (
 func init() {
 	register("C05", &propSpec{
 		level:       "other",
-		explanation: "The adapter's wiring between SFTP requests and package os, decided from the code: for every request type, the file-system calls made in its handling are exactly the expected package-os entry points with arguments of the right provenance (each path through toLocalPath exactly once, the symlink target verbatim); the open-flag tables of client (os→wire) and server (wire→os) compose to the identity on access mode, CREATE, TRUNC, EXCL for all 48 combinations; the error translation server→wire→client preserves the category for a finite set of standard error shapes (bare and inside os's own wrappers); toLocalPath joins only relative paths onto the working directory. Decides the mapping, not the behaviour of sequences over file-system states.",
+		explanation: "The adapter's wiring between SFTP requests and package os, decided from the code: for every request type, the file-system calls made in its handling are exactly the expected package-os entry points with arguments of the right provenance (each path through toLocalPath exactly once, the symlink target verbatim); the open-flag tables of client (os→wire) and server (wire→os) compose to the identity on access mode, CREATE, TRUNC, EXCL for all 48 combinations; the error translation server→wire→client preserves the category for a finite set of standard error shapes (bare and inside os's own wrappers); toLocalPath joins only relative paths onto the working directory; Client.MkdirAll returns errors from the same sources as os.MkdirAll and Client.Glob keeps the matches of every expanded directory. Decides the mapping, not the behaviour of sequences over file-system states.",
 		run:         runC05,
-		assumptions: []string{"package os, path and errors behave as documented (axiom table for os.IsNotExist, os.IsPermission, errors.Is, errors.As)", "client composites (MkdirAll, RemoveAll, Glob, Walk, Remove fallback) are not decided"},
+		assumptions: []string{"package os, path and errors behave as documented (axiom table for os.IsNotExist, os.IsPermission, errors.Is, errors.As)", "of the client composites only Glob's accumulator threading and MkdirAll's error sources (against the toolchain's os.MkdirAll) are decided; RemoveAll, Walk and the Remove fallback are not"},
 	})
 }
 
